@@ -61,7 +61,8 @@ def build_script(rng, i, quick):
         pid = g.fresh("p")
         ops.append({"op": "propose", "who": snd, "kind": "update" if enc else "gce", "id": pid, "aad": "a1a2", "ext_data": "0102"})
         pid2 = g.fresh("p")
-        o2 = [m for m in others if m not in rcv] or others
+        # the author of the second proposal keeps it to itself: it must not be the member that builds the encrypted commit
+        o2 = [m for m in others if m not in rcv] or [m for m in others if m != rcv[0]] or others
         ops.append({"op": "opts", "who": o2[0], "encrypt_controls": enc})
         ops.append({"op": "propose", "who": o2[0], "kind": "remove", "name": rng.choice([m for m in members if m not in (snd, o2[0])] or [m for m in members if m != o2[0]]), "id": pid2})
         kind = "proposal_enc" if enc else "proposal_pub"
